@@ -143,3 +143,108 @@ Definition go_sub_cap {A : Type} (l spare : list A) (lo hi : Z) : res (list A) :
   if (0 <=? lo) && (lo <=? hi) && (hi <=? zlen l + zlen spare)
   then Ok (firstn (Z.to_nat (hi - lo)) (skipn (Z.to_nat lo) (l ++ spare)))
   else Panic PSlice.
+
+(* ---- maps without iteration: map[K]V as an association list ----
+   [eqb] is Go's == on the key type (a function argument [eqb_K] of the generated function for an
+   abstract comparable key type).  A lookup answers the first entry whose key is equal; a store
+   replaces that entry in place or appends a new one; delete removes every entry with an equal
+   key -- so maps built from [] by these operations never hold two entries for one key, and the
+   lemmas of [GoMapFacts] (under the correctness of [eqb]) are Go's map laws.  A map-typed
+   receiver field is taken to be allocated (a store into a nil map would panic in Go). *)
+Definition go_map (K V : Type) : Type := list (K * V).
+
+Fixpoint go_map_get {K V : Type} (eqb : K -> K -> bool) (m : go_map K V) (k : K) : option V :=
+  match m with
+  | [] => None
+  | (k', x) :: r => if eqb k' k then Some x else go_map_get eqb r k
+  end.
+
+(* v, ok := m[k] *)
+Definition go_map_get2 {K V : Type} (eqb : K -> K -> bool) (zero : V) (m : go_map K V) (k : K) : V * bool :=
+  match go_map_get eqb m k with
+  | Some x => (x, true)
+  | None => (zero, false)
+  end.
+
+(* m[k] as one value: the zero value for an absent key *)
+Definition go_map_get1 {K V : Type} (eqb : K -> K -> bool) (zero : V) (m : go_map K V) (k : K) : V :=
+  fst (go_map_get2 eqb zero m k).
+
+(* m[k] = x *)
+Fixpoint go_map_set {K V : Type} (eqb : K -> K -> bool) (m : go_map K V) (k : K) (x : V) : go_map K V :=
+  match m with
+  | [] => [(k, x)]
+  | (k', y) :: r => if eqb k' k then (k', x) :: r else (k', y) :: go_map_set eqb r k x
+  end.
+
+(* delete(m, k) *)
+Fixpoint go_map_del {K V : Type} (eqb : K -> K -> bool) (m : go_map K V) (k : K) : go_map K V :=
+  match m with
+  | [] => []
+  | (k', y) :: r => if eqb k' k then go_map_del eqb r k else (k', y) :: go_map_del eqb r k
+  end.
+
+(* len(m): the number of distinct keys (an entry counts unless a later one has an equal key) *)
+Fixpoint go_map_len {K V : Type} (eqb : K -> K -> bool) (m : go_map K V) : Z :=
+  match m with
+  | [] => 0
+  | (k, _) :: r => (if existsb (fun e => eqb (fst e) k) r then 0 else 1) + go_map_len eqb r
+  end.
+
+Section GoMapFacts.
+Context {K V : Type}.
+Variable eqb : K -> K -> bool.
+Hypothesis eqb_ok : forall a b, eqb a b = true <-> a = b.
+
+Lemma go_map_eqb_refl k : eqb k k = true.
+Proof. apply eqb_ok; reflexivity. Qed.
+
+Lemma go_map_eqb_neq a b : a <> b -> eqb a b = false.
+Proof. intros N. destruct (eqb a b) eqn:E; [apply eqb_ok in E; contradiction | reflexivity]. Qed.
+
+Lemma go_map_get_empty (k : K) : go_map_get eqb ([] : go_map K V) k = None.
+Proof. reflexivity. Qed.
+
+Lemma go_map_get_set_same (m : go_map K V) k x : go_map_get eqb (go_map_set eqb m k x) k = Some x.
+Proof.
+  induction m as [|[k' y] r IH]; simpl.
+  - rewrite go_map_eqb_refl; reflexivity.
+  - destruct (eqb k' k) eqn:E; simpl; rewrite E; [reflexivity | exact IH].
+Qed.
+
+Lemma go_map_get_set_other (m : go_map K V) k k2 x : k <> k2 ->
+  go_map_get eqb (go_map_set eqb m k x) k2 = go_map_get eqb m k2.
+Proof.
+  intros N. induction m as [|[k' y] r IH]; simpl.
+  - rewrite (go_map_eqb_neq _ _ N); reflexivity.
+  - destruct (eqb k' k) eqn:E; simpl.
+    + apply eqb_ok in E; subst k'. rewrite (go_map_eqb_neq _ _ N); reflexivity.
+    + destruct (eqb k' k2); [reflexivity | exact IH].
+Qed.
+
+Lemma go_map_get_del_same (m : go_map K V) k : go_map_get eqb (go_map_del eqb m k) k = None.
+Proof.
+  induction m as [|[k' y] r IH]; simpl; [reflexivity|].
+  destruct (eqb k' k) eqn:E; simpl; [exact IH | rewrite E; exact IH].
+Qed.
+
+Lemma go_map_get_del_other (m : go_map K V) k k2 : k <> k2 ->
+  go_map_get eqb (go_map_del eqb m k) k2 = go_map_get eqb m k2.
+Proof.
+  intros N. induction m as [|[k' y] r IH]; simpl; [reflexivity|].
+  destruct (eqb k' k) eqn:E; simpl.
+  - apply eqb_ok in E; subst k'. rewrite (go_map_eqb_neq _ _ N); exact IH.
+  - destruct (eqb k' k2); [reflexivity | exact IH].
+Qed.
+
+Lemma go_map_get2_some zero (m : go_map K V) k x :
+  go_map_get eqb m k = Some x -> go_map_get2 eqb zero m k = (x, true).
+Proof. unfold go_map_get2; intros ->; reflexivity. Qed.
+
+Lemma go_map_get2_none zero (m : go_map K V) k :
+  go_map_get eqb m k = None -> go_map_get2 eqb zero m k = (zero, false).
+Proof. unfold go_map_get2; intros ->; reflexivity. Qed.
+
+Lemma go_map_len_empty : go_map_len eqb ([] : go_map K V) = 0%Z.
+Proof. reflexivity. Qed.
+End GoMapFacts.
